@@ -363,3 +363,15 @@ Proof.
     + intros a Ha. apply stores_above_frame. unfold slot_offset in *. lia.
   - replace (k + S i)%nat with (S k + i)%nat by lia. apply IH; assumption.
 Qed.
+
+(* ================================================================== 6. every path goes through the modelled converter *)
+(* facts regenerated into C14/Gen.v (tools/props/c14_regen.py path_facts): a path that stops calling its converter
+   turns its fact into `false` and breaks its obligation here *)
+Lemma path_callback_args : gic_args_libffi = true /\ gic_arg_convert = true. Proof. split; reflexivity. Qed.
+Lemma path_externpy_args : gic_args_externpy = true /\ gic_arg_convert = true. Proof. split; reflexivity. Qed.
+Lemma path_result : gic_result = true /\ fficallback_shape = true. Proof. split; reflexivity. Qed.
+Lemma path_error_value : gic_error_value = true /\ prepare_rawerr = true. Proof. split; reflexivity. Qed.
+Lemma path_onerror : gic_onerror = true. Proof. reflexivity. Qed.
+Lemma path_no_escape : gic_no_escape = true. Proof. reflexivity. Qed.
+Lemma path_entry_ffi_callback : path_ffi_callback = true. Proof. reflexivity. Qed.
+Lemma path_entry_extern_python : path_extern_python = true. Proof. reflexivity. Qed.
